@@ -84,7 +84,7 @@ def run(tier, seed, t0):
     return oblig.finish('C06', tier, seed, obs, t0,
                         functions=[f'solver.py:DependencyTracker.{m}' for m in tr.METHODS] + ['solver.py:Solver.solve', 'solver.py:Solver._attempt_field', 'solver.py:Solver._attempt_input'],
                         trusted_base=sp.TRUST,
-                        assumptions=sp.ASSUME + ['termination of solve() and the per-line evaluation bound are NOT discharged deductively; they are covered only by the bounded stand-in listed under "bounded"',
+                        assumptions=sp.ASSUME + ['termination of solve(): discharged are (1) every iteration of the main loop does a unit of work, (2) evaluations of a line = waits it registered + declarations loaded for it + 1 if it is done, each wait / declaration distinct, (3) an input is asked only while not supplied and not refused, (4) the drain generator terminates (variant); what is NOT discharged is the step from these to termination, which needs the catalogue of lines and inputs to be finite (A-FIN: a year lists finitely many forms; numbered copies are bounded by the number_<form> answers) - the bounded stand-in checks termination natively',
                                                  '"each missing input is asked at most once" follows from the discharged prompt-site obligations (asked only while not refused and not yet supplied; an answer makes it supplied, a refusal sets the refusal flag, neither is ever undone)'],
                         checker_cmd='./check C06', min_obligations=60)
 
